@@ -32,7 +32,13 @@ def exact_fit(arr, mask, lams):
     return True
 
 
-def criterion_unresolved(variant, a1, a2, mask1, mask2, prm, l1, l2, reverse=False):
+def robust_weights(ctx, variant, arr, nd, prm):
+    """final robust weights of the run, from the Lean model (tied to the kernel bit for bit by this run's correspondence)"""
+    a = ctx.driver.ask([f"wcvdiag F {core.farr(arr)} {core.f2h(nd)} {core.farr(prm['sr'])} 1"])[0].split()
+    return np.array(core.parse_arr(a[3], core.h2f)) if a[0] == "ok" else None
+
+
+def criterion_unresolved(variant, a1, a2, mask1, mask2, prm, l1, l2, reverse=False, weights=None):
     """The selection criterion recomputed independently (NumPy + the compiled ws2d core) for both inputs.
     Returns a reason string when a different lambda is tolerated, else None:
       * 'float-resolution': the criterion values of the two (mathematically equivalent) inputs differ by more than
@@ -44,7 +50,7 @@ def criterion_unresolved(variant, a1, a2, mask1, mask2, prm, l1, l2, reverse=Fal
     p = prm.get("p")
 
     def crit(arr, mask):
-        w = mask.astype("float64")
+        w = mask.astype("float64") if weights is None else weights[0 if arr is a1 else 1]
         y = np.where(mask, arr, 0.0)
         with np.errstate(all="ignore"):
             if variant in ("optv",):
@@ -97,18 +103,30 @@ def run(ctx: core.Ctx):
                 y = [a + b * i for i in range(n)]
             valid = [v for v, ok in zip(y, m) if ok]
             nd = gen.placeholder(rng, valid)
-            arr = smooth.encode(y, m, nd)
-            if tkind == "linear":
-                jobs.append((variant, tkind, arr, nd, None, None, prm, dict(y=y, m=m)))
-            elif tkind == "shift":
-                c = rng.choice([-1000, -37, -1, 1, 2, 500, 3000])
-                if max(abs(v + c) for v in y) > 10000 or not (-32768 <= nd + c <= 32767):
-                    c = 1 if max(y) < 9999 else -1
-                arr2 = smooth.encode([v + c for v in y], m, nd + c)
-                jobs.append((variant, tkind, arr, nd, arr2, nd + c, prm, dict(c=c, m=m)))
-            else:
-                arr2 = arr[::-1].copy()
-                jobs.append((variant, tkind, arr, nd, arr2, nd, prm, dict(m=m)))
+            jobs += make_jobs(rng, variant, y, m, nd, prm, [tkind])
+    evaluate(ctx, jobs)
+    ctx.trusted += ["native model driver (Hdc/Model/Smooth.lean at Float)", "harness/props/c06.py oracle (pairs of real calls)"]
+
+
+def make_jobs(rng, variant, y, m, nd, prm, kinds):
+    jobs = []
+    n = len(y)
+    arr = smooth.encode(y, m, nd)
+    for tkind in kinds:
+        if tkind == "linear":
+            jobs.append((variant, tkind, arr, nd, None, None, prm, dict(y=y, m=m)))
+        elif tkind == "shift":
+            c = rng.choice([-1000, -37, -1, 1, 2, 500, 3000])
+            if max(abs(v + c) for v in y) > 10000 or not (-32768 <= nd + c <= 32767):
+                c = 1 if max(y) < 9999 else -1
+            arr2 = smooth.encode([v + c for v in y], m, nd + c)
+            jobs.append((variant, tkind, arr, nd, arr2, nd + c, prm, dict(c=c, m=m)))
+        elif variant in REVERSIBLE:
+            jobs.append((variant, "reverse", arr, nd, arr[::-1].copy(), nd, prm, dict(m=m)))
+    return jobs
+
+
+def evaluate(ctx, jobs):
     # real calls + model lines
     lines = []
     results = []
@@ -162,7 +180,15 @@ def run(ctx: core.Ctx):
                     if not smooth.ties_ok(r2[0], r1[0] + c, np.array(m1[1]) + c):
                         ctx.fail(variant, inp, r2[0].tolist(), (r1[0] + c).tolist(), note="band must shift by the offset")
                     continue
-                why = None if variant.endswith("r") else criterion_unresolved(variant, a1, a2, mask, mask, prm, r1[1], r2[1])
+                if variant.endswith("r"):
+                    # robust: judge the criterion under the validity weights and under each run's final robust weights
+                    why = criterion_unresolved(variant, a1, a2, mask, mask, prm, r1[1], r2[1])
+                    if not why:
+                        rw = (robust_weights(ctx, variant, a1, nd1, prm), robust_weights(ctx, variant, a2, nd2, prm))
+                        if rw[0] is not None and rw[1] is not None:
+                            why = criterion_unresolved(variant, a1, a2, mask, mask, prm, r1[1], r2[1], weights=rw)
+                else:
+                    why = criterion_unresolved(variant, a1, a2, mask, mask, prm, r1[1], r2[1])
                 if why:
                     ctx.count(f"lambda differs, criterion {why}: not judged")
                     continue
@@ -190,9 +216,41 @@ def run(ctx: core.Ctx):
                 if not (close.all() and smooth.ties_ok(r2[0], r1[0][::-1], np.array(m2[1]))):
                     ctx.fail(variant, inp, r2[0].tolist(), r1[0][::-1].tolist(), note="band of the reversed series must be the reversed band")
         del mask
-    ctx.trusted += ["native model driver (Hdc/Model/Smooth.lean at Float)", "harness/props/c06.py oracle (pairs of real calls)"]
 
 
 def search(ctx):
-    ctx.quick = False
-    run(ctx)
+    """A proof or the correspondence broke: first put every disagreeing input through all transformations on the real code
+    (the model disagreeing with the kernel is the best hint where the property may fail), then the thorough random budget."""
+    rng = ctx.rng
+    jobs = []
+    for d in list(ctx.disagreements)[:200]:
+        inp = d["input"]
+        try:
+            y = [int(v) for v in inp["y"]]
+            nd = int(inp["nodata"])
+            variant, prm = inp["variant"], dict(inp["params"])
+        except (KeyError, TypeError, ValueError):
+            continue
+        m = [v != nd for v in y]
+        jobs += make_jobs(rng, variant, y, m, nd, prm, ["shift", "shift", "reverse"])
+    evaluate(ctx, jobs)
+    # many short series for the variants whose model and kernel disagree (selection changes show up on short, noisy series)
+    bad_variants = sorted({d["input"].get("variant") for d in ctx.disagreements if isinstance(d["input"], dict)} - {None})
+    for variant in bad_variants:
+        if ctx.failures:
+            break
+        jobs = []
+        for _ in range(1500):
+            n = rng.choice([6, 8, 10, 12, 16])
+            if variant == "optvplc":
+                n = max(n, 6)
+            y, m, prm = smooth.make_case(rng, variant, n=n, kind=rng.choice(["sign", "walk", "ndvi", "rain"]))
+            m = [True] * n if rng.random() < 0.6 else m
+            if "sr" in prm:
+                prm["sr"] = list(np.arange(-2, 4.5, 0.5))
+            nd = gen.placeholder(rng, [v for v, ok in zip(y, m) if ok])
+            jobs += make_jobs(rng, variant, y, m, nd, prm, ["reverse", "shift"])
+        evaluate(ctx, jobs)
+    if not ctx.failures:
+        ctx.quick = False
+        run(ctx)
